@@ -259,7 +259,7 @@ impl C13 {
                     return;
                 }
             };
-            let mixed = p.info.asset_decimals[i] != p.info.asset_decimals[j];
+            let mixed = p.info.asset_decimals.get(i) != p.info.asset_decimals.get(j);
             let abs = hash_of(&("ss", pool, i, j, mag(off), accepted, max_slip.map(|d| d.atomics().u128())));
             // flagged only when the decision contradicts both readings of "pool price"
             let j_peg = judge(accepted, rejected_for_it, &peg, &tol, &delta, "loss vs peg");
